@@ -349,7 +349,27 @@ var leafNames = []string{"x", "y", "z", "w"}
 // varTreeItem: one operator tree over variables, parsed once, run over all
 // tuples of the pool.
 func varTreeItem(space string, t *node, nleaves int, pool []vp.Val) item {
-	src := t.src(leafNames[:nleaves])
+	return varTreeItemSrc(space, t, nleaves, pool, t.src(leafNames[:nleaves]))
+}
+
+// elemTreeItem: the operands reach the operator as ELEMENTS of a list built from
+// the variables (still wrapped in an interface when the operator sees them);
+// elem[i] = true => leaf i is read as el[k].
+func elemTreeItem(space string, t *node, nleaves int, pool []vp.Val, elem []bool) item {
+	names := make([]string, nleaves)
+	var in []string
+	for i := range names {
+		if elem[i] {
+			names[i] = fmt.Sprintf("el[%d]", len(in))
+			in = append(in, leafNames[i])
+		} else {
+			names[i] = leafNames[i]
+		}
+	}
+	return varTreeItemSrc(space, t, nleaves, pool, "el = ["+strings.Join(in, ", ")+"]\n"+t.src(names))
+}
+
+func varTreeItemSrc(space string, t *node, nleaves int, pool []vp.Val, src string) item {
 	total := int64(1)
 	for i := 0; i < nleaves; i++ {
 		total *= int64(len(pool))
@@ -555,6 +575,42 @@ func cacheSweepItems() []item {
 			}
 		}})
 	}
+	// a boxed result must not be a view of the cache: a store through the address
+	// of a variable that holds a computed small integer changes that variable
+	// only - the next computation of the same integer (same environment, then a
+	// fresh one) still yields it
+	for _, src := range []string{
+		"a = x + z\np = &a\n*p = w\nx + z",
+		"a = x + z\np = &a\n*p = w\n[x + z, a][0]",
+		"a = x - z\nfunc set(q) { *q = w }\nset(&a)\nx - z",
+		"a = [x + z]\na[0] = w\nx + z",
+		"a = x + z\na++\na += w\nx + z",
+	} {
+		src := src
+		items = append(items, item{key: "cache-sweep|" + src, space: "cache-sweep", gen: 2 * 4102, run: func(k *runner) {
+			stmt, err := parser.ParseSrc(src)
+			if err != nil {
+				k.res.Violate(common.Violation{Class: "cache-sweep/" + src + "/parse", Case: src, Detail: err.Error(), Replay: rcase{Src: src}})
+				return
+			}
+			probe, _ := parser.ParseSrc("x + z")
+			e := env.NewEnv()
+			for v := int64(-3); v <= 4098; v++ {
+				uv := []vp.Val{vp.IntV(v), vp.IntV(0), vp.IntV(v + 7)}
+				un := []string{"x", "z", "w"}
+				for i, n := range un {
+					e.Define(n, uv[i].Go())
+				}
+				o := runStmt(e, stmt)
+				k.judge(src, src, un, uv, "int,int,int", o, vp.IntV(v), ok)
+				e2 := env.NewEnv()
+				e2.Define("x", v)
+				e2.Define("z", int64(0))
+				o2 := runStmt(e2, probe)
+				k.judge(src+" || fresh environment: x + z", "x + z", un[:2], uv[:2], "int,int", o2, vp.IntV(v), ok)
+			}
+		}})
+	}
 	return items
 }
 
@@ -586,11 +642,15 @@ func buildItems(thorough bool) []item {
 		items = append(items, litTreeItem("binary-lit-lit", t, 2, full, []bool{true, true}))
 		items = append(items, litTreeItem("binary-lit-var", t, 2, full, []bool{true, false}))
 		items = append(items, litTreeItem("binary-var-lit", t, 2, full, []bool{false, true}))
+		items = append(items, elemTreeItem("binary-elem-elem", t, 2, full, []bool{true, true}))
+		items = append(items, elemTreeItem("binary-var-elem", t, 2, full, []bool{false, true}))
+		items = append(items, elemTreeItem("binary-elem-var", t, 2, full, []bool{true, false}))
 	}
 	for _, op := range unOps {
 		t := un(op, L(0))
 		items = append(items, varTreeItem("unary-var", t, 1, full))
 		items = append(items, litTreeItem("unary-lit", t, 1, full, []bool{true}))
+		items = append(items, elemTreeItem("unary-elem", t, 1, full, []bool{true}))
 	}
 
 	items = append(items, cacheSweepItems()...)
